@@ -370,3 +370,18 @@ Proof.
   intros Hb Hab. split; [apply radius_at_0; assumption|].
   split; [apply radius_at_PI2; assumption|]. intros t. apply radius_at_bounds; assumption.
 Qed.
+(* the ellipse boundary point of index i lies at bearing (2*pi*i/k in degrees) + rotation, mod 360 *)
+Theorem ellipse_pt_bearing s k i :
+  -90 < lat (e_center s) < 90 ->
+  0 < e_minor s -> e_minor s <= e_major s -> e_major s < PI * Rearth ->
+  -90 < lat (ellipse_pt s k i) < 90 ->
+  exists z : Z,
+    bearing_raw (e_center s) (ellipse_pt s k i) = deg (ellipse_angle k i) + e_rotation s + 360 * IZR z.
+Proof.
+  intros H1 Hb Hab Ha H4. unfold ellipse_pt in *.
+  set (t := ellipse_angle k i) in *.
+  pose proof (radius_at_bounds s Hb Hab t) as [R1 R2].
+  destruct (dest_bearing_any (e_center s) (t + rad (e_rotation s)) (radius_at s t)) as [z E];
+    [assumption|lra|assumption|].
+  exists z. rewrite E. unfold deg, rad. field. apply PI_neq0'.
+Qed.
